@@ -125,7 +125,8 @@ package directive
 // Generating directives (C07). #aa:dbus: sanityCheck accepts exactly the documented forms
 // and fills in the default path and the name pattern; own yields, on the named bus only,
 // one bind rule for the name and send/receive rules on the path for the interfaces; talk
-// yields send/receive rules on the named bus and path, addressed to the peer name and label.
+// yields send/receive rules on the named bus and path, addressed to the peer name and label:
+// one per interface, in the order of the interfaces, followed by four fixed rules.
 //@ func (Dbus).sanityCheck
 //@   opt prop=C07
 //@   requires opt != nil
@@ -159,7 +160,10 @@ package directive
 //@   loop 1 invariant forall(k, 0, len(res), res[k] != nil && allocated(res[k]))
 //@   loop 1 invariant forall(k, 0, len(res), imp(typeIs(res[k], "*aa.Dbus"), as(res[k], "*aa.Dbus").Bus == rules["bus"] && as(res[k], "*aa.Dbus").Path == rules["path"] && as(res[k], "*aa.Dbus").PeerLabel == rules["label"] && as(res[k], "*aa.Dbus").Name == "" && as(res[k], "*aa.Dbus").PeerName == concat(concat("\"{@{busname},", rules["name"]), "}\"") && forall(a, 0, len(as(res[k], "*aa.Dbus").Access), as(res[k], "*aa.Dbus").Access[a] == "send" || as(res[k], "*aa.Dbus").Access[a] == "receive")))
 //@   ensures forall(k, 0, len(result), imp(typeIs(result[k], "*aa.Dbus"), as(result[k], "*aa.Dbus").Bus == rules["bus"] && as(result[k], "*aa.Dbus").Path == rules["path"] && as(result[k], "*aa.Dbus").PeerLabel == rules["label"] && as(result[k], "*aa.Dbus").Name == "" && as(result[k], "*aa.Dbus").PeerName == concat(concat("\"{@{busname},", rules["name"]), "}\"") && forall(a, 0, len(as(result[k], "*aa.Dbus").Access), as(result[k], "*aa.Dbus").Access[a] == "send" || as(result[k], "*aa.Dbus").Access[a] == "receive")))
+//@   loop 1 invariant iter(1) <= len(interfaces)
+//@   loop 1 invariant len(res) == iter(1) && forall(k, 0, iter(1), typeIs(res[k], "*aa.Dbus") && as(res[k], "*aa.Dbus").Interface == interfaces[k])
 //@   ensures len(result) >= 4
+//@   ensures len(result) == len(final(interfaces)) + 4 && forall(k, 0, len(final(interfaces)), typeIs(result[k], "*aa.Dbus") && as(result[k], "*aa.Dbus").Interface == final(interfaces)[k])
 
 // common yields, on the named bus and path only, send/receive rules addressed to the peer
 // label (the org.freedesktop.DBus.Properties / Introspectable / ObjectManager interfaces).
